@@ -409,7 +409,19 @@ def r5_witness(cx):
 
 r5_witness.only_configs = ("lib-all3",)
 
+def r_errors_reach_the_caller(cx):
+    """an error met while locating, opening or parsing (a detected alteration) is never turned into 'absent' / a
+    default: it must reach the caller of check() / of the accessor (= C06-R7, evaluated under this property)"""
+    import c06
+    before = len(cx.obs)
+    c06.r7_errors_not_swallowed(cx)
+    for o in cx.obs[before:]:
+        o.key = "R7/" + o.key.split("/", 1)[1]
+        o.rule = "R7"
+
+
 RULES = [
+    ("R7", r_errors_reach_the_caller, 2),
     ("R1", r1_parse_sites, 22),
     ("R2", r2_source_matrix, 8),
     ("R3", r3_the_check, 10),
